@@ -134,7 +134,7 @@ theorem parseOp_ok {u : UInfo} {orc : Oracle} {c : Comps} {i : OpIn} {out : OpOu
       parseParams orc c.parameters i.opId i.params = .ok (own, ev2) ∧
       parseBodyOpt orc c.requestBodies i.opId i.requestBody = .ok (body, ev3) ∧
       parseResponses u orc c.responses i.opId (normResponses i.responses) = .ok (resps, ev4) ∧
-      out = ⟨base ++ own, body, resps, ev1 ++ ev2 ++ ev3 ++ ev4⟩ := by
+      out = ⟨mergeParams base own, body, resps, ev1 ++ ev2 ++ ev3 ++ ev4⟩ := by
   unfold parseOp at h
   split at h
   · cases h
@@ -444,6 +444,67 @@ theorem parseParams_names {orc : Oracle} {tbl : List (Str × JsonV)} {opId : Str
           obtain ⟨kvs, hk, hname⟩ := parseParam_name h2
           subst hk
           simp only [List.map_cons, ih h3, paramNameOf, h1, hname, Option.getD_some]
+
+/-- `node.get("in", "query")` of the (resolved) parameter node -/
+def paramInOf (tbl : List (Str × JsonV)) (p : JsonV) : JsonV :=
+  match resolveParam tbl p with
+  | .ok (.obj kvs) => (aget kvs "in".toList).getD (.str "query".toList)
+  | _ => .null
+
+theorem parseParams_keys {orc : Oracle} {tbl : List (Str × JsonV)} {opId : Str} :
+    ∀ {ps : List JsonV} {out : List IRParam} {evs : List Event},
+      parseParams orc tbl opId ps = .ok (out, evs) →
+        out.map (fun p => (p.name, p.pin)) = ps.map (fun n => (paramNameOf tbl n, paramInOf tbl n)) := by
+  intro ps
+  induction ps with
+  | nil => intro out evs h; simp only [parseParams] at h; injection h with h; injection h with h _; subst h; rfl
+  | cons p ps ih =>
+    intro out evs h
+    simp only [parseParams] at h
+    split at h
+    · cases h
+    · rename_i node h1
+      split at h
+      · cases h
+      · rename_i ip ev h2
+        split at h
+        · cases h
+        · rename_i ips evs' h3
+          injection h with h
+          injection h with h _
+          subst h
+          obtain ⟨kvs, pname, sc, hk, hname, _, hp⟩ := parseParam_ok h2
+          subst hk
+          subst hp
+          simp only [List.map_cons, ih h3, paramNameOf, paramInOf, h1, hname, Option.getD_some]
+
+/-! ### the override of path-level parameters (`mergeParams`) -/
+
+theorem mergeParams_sublist (base own : List IRParam) : (mergeParams base own).Sublist (base ++ own) :=
+  List.Sublist.append List.filter_sublist (List.Sublist.refl own)
+
+theorem mergeParams_suffix (base own : List IRParam) : own <:+ mergeParams base own :=
+  List.suffix_append _ _
+
+theorem mem_mergeParams {base own : List IRParam} {p : IRParam} :
+    p ∈ mergeParams base own ↔ (p ∈ base ∧ ∀ q ∈ own, sameParamKey p q = false) ∨ p ∈ own := by
+  simp only [mergeParams, List.mem_append, List.mem_filter, Bool.not_eq_true', List.any_eq_false, Bool.not_eq_true]
+
+/-- Nothing to override: the plain concatenation. -/
+theorem mergeParams_of_distinct {base own : List IRParam} (h : ∀ p ∈ base, ∀ q ∈ own, sameParamKey p q = false) :
+    mergeParams base own = base ++ own := by
+  simp only [mergeParams, List.append_cancel_right_eq, List.filter_eq_self, Bool.not_eq_true', List.any_eq_false,
+    Bool.not_eq_true]
+  exact h
+
+/-- The merged list has no two entries with the same (name, in) when neither input list has. -/
+theorem mergeParams_pairwise {base own : List IRParam}
+    (hb : base.Pairwise (fun a b => sameParamKey a b = false)) (ho : own.Pairwise (fun a b => sameParamKey a b = false)) :
+    (mergeParams base own).Pairwise (fun a b => sameParamKey a b = false) := by
+  refine List.pairwise_append.mpr ⟨hb.sublist List.filter_sublist, ho, ?_⟩
+  intro a ha b hb'
+  simp only [List.mem_filter, Bool.not_eq_true', List.any_eq_false, Bool.not_eq_true] at ha
+  exact ha.2 b hb'
 
 /-! ### what the parameter promotion names are -/
 
